@@ -7,6 +7,11 @@ Oracle (decided on the implementation's answer alone): the two dumps in the answ
 dumps computed by tools/front_gen.py from the abstract schema the text was printed from.  An
 `err` answer is acceptable only in the family `rejected` (forms outside the implementation's
 subset, which must be refused loudly and never be parsed into something else).
+
+Family `quirk`: requests inside an OPEN known finding (QUIRK_CLASS).  Family `regress`: the
+witnesses of REPAIRED findings (string literal with a separator in first position, empty
+literals, value references called min / max); they are in no finding class any more, so the
+old behaviour would be reported as a VIOLATION.
 """
 import glob
 import os
@@ -24,11 +29,10 @@ QUIRK_CLASS = {
     "ext_second": "parse.ext_marker_second",
     "module_suffix": "parse.module_suffix",
     "strdefault_comment": "parse.string_default_comment",
-    "strdefault_first_sep": "parse.string_default_first_separator",
-    "strdefault_empty": "parse.string_default_empty",
-    "ref_min_max": "parse.ref_named_min_max",
     "partial_octets": "parse.partial_hstring_bstring",
 }
+# repaired (KNOWN_FINDINGS.txt `fixed:` lines of property C07): strdefault_first_sep,
+# strdefault_empty, ref_min_max — family `regress`, no class
 
 
 def hx(text):
@@ -94,7 +98,9 @@ class ParseStream(runner.Stream):
         out = []
 
         def one(m, quirk, **kw):
-            out.append(self.rt(m, "quirk", quirk, **kw))
+            out.append(self.rt(m, "quirk" if quirk in QUIRK_CLASS else "regress", quirk, **kw))
+
+        STR = ("str", "utf8", ("any",))
 
         # INTEGER (0..MAX) / (MIN..i64::MAX): widened to unconstrained
         for ext in (False, True):
@@ -120,21 +126,41 @@ class ParseStream(runner.Stream):
         for toks in (["a--b"], ["x", "--", "y"], ["--"], ["a", "--b"]):
             one(simple_module("M", [("def", "A", None, seq([fld("s", ("str", "utf8", ("any",)), ("dflt", ("s", toks))), fld("t", INT)]))]),
                 "strdefault_comment")
-        for toks in ([",", "a"], [":"], ["(", "x", ")"], [".", "."], ["'", "a"], ["=", "b", "c"]):
-            one(simple_module("M", [("def", "A", None, seq([fld("s", ("str", "utf8", ("any",)), ("dflt", ("s", toks)))]))]),
+        # regression: a separator as first token of a string literal (it was dropped)
+        for toks in ([",", "a"], [":"], ["(", "x", ")"], [".", "."], ["'", "a"], ["=", "b", "c"], ["'"], ["{", "}"],
+                     [";", ";", "x"], ["[", "0", "]", "z"]):
+            one(simple_module("M", [("def", "A", None, seq([fld("s", STR, ("dflt", ("s", toks)))]))]),
                 "strdefault_first_sep")
+            one(simple_module("M", [("vr", "v", STR, ("s", toks)), ("def", "A", None, seq([fld("s", STR, ("dflt", ("s", toks))), fld("t", INT)]))]),
+                "strdefault_first_sep")
+        # regression: empty literals (the closing delimiter was taken for content)
         one(simple_module("M", [("def", "A", None, seq([fld("s", ("str", "utf8", ("any",)), ("dflt", ("s", [])))]))]), "strdefault_empty")
         one(simple_module("M", [("def", "A", None, seq([fld("s", ("str", "utf8", ("any",)), ("dflt", ("s", []))), fld("t", ("str", "ia5", ("any",)), ("dflt", ("s", ["x"])))]))]),
             "strdefault_empty")
         one(simple_module("M", [("vr", "e", ("str", "utf8", ("any",)), ("s", [])), ("def", "A", None, INT)]), "strdefault_empty")
         for l in (("o", ""), ("ob", "")):
             one(simple_module("M", [("def", "A", None, seq([fld("o", ("oct", ("any",)), ("dflt", l)), fld("t", INT)]))]), "strdefault_empty")
-        # value references called `max` / `min` (any case) are taken for the keywords
-        for nm, pos in (("max", "hi"), ("Max", "hi"), ("min", "lo"), ("mIN", "lo")):
+            one(simple_module("M", [("def", "A", None, seq([fld("o", ("bit", ("any",), []), ("dflt", l))]))]), "strdefault_empty")
+            one(simple_module("M", [("vr", "e", ("oct", ("any",)), l), ("def", "A", None, seq([fld("o", ("oct", ("any",)), ("dflt", ("ref", "e")))]))]), "strdefault_empty")
+        one(simple_module("M", [("def", "A", None, seq([fld("s", STR, ("dflt", ("s", []))), fld("o", ("oct", ("any",)), ("dflt", ("o", ""))),
+                                                        fld("u", STR, ("dflt", ("s", [])))]))]), "strdefault_empty")
+        # regression: value references called `max` / `min` (any case) were taken for the keywords
+        for nm, pos in (("max", "hi"), ("Max", "hi"), ("mAX", "hi"), ("min", "lo"), ("mIN", "lo"), ("Min", "lo"),
+                        ("min", "hi"), ("max", "lo")):
             lo, hi = (5, ("ref", nm)) if pos == "hi" else (("ref", nm), 500)
-            one(simple_module("M", [("vr", nm, INT, ("i", 100)), ("def", "A", None, ("int", lo, hi, False, []))]), "ref_min_max")
-            one(simple_module("M", [("vr", nm, INT, ("i", 100)), ("def", "A", None, ("oct", ("range", lo, hi, False)))]), "ref_min_max")
+            for ext in (False, True):
+                one(simple_module("M", [("vr", nm, INT, ("i", 100)), ("def", "A", None, ("int", lo, hi, ext, []))]), "ref_min_max")
+                one(simple_module("M", [("vr", nm, INT, ("i", 100)), ("def", "A", None, ("oct", ("range", lo, hi, ext)))]), "ref_min_max")
+            one(simple_module("M", [("vr", nm, INT, ("i", 100)), ("def", "A", None, ("seqof", ("fix", ("ref", nm), False), ("bool",)))]), "ref_min_max")
         one(simple_module("M", [("vr", "max", INT, ("i", 100)), ("def", "A", None, ("int", 0, ("ref", "max"), False, []))]), "ref_min_max")
+        one(simple_module("M", [("vr", "min", INT, ("i", 1)), ("vr", "max", INT, ("i", 100)),
+                                ("def", "A", None, ("int", ("ref", "min"), ("ref", "max"), False, [])),
+                                ("def", "B", None, ("str", "ia5", ("range", ("ref", "min"), ("ref", "max"), True))),
+                                ("def", "C", None, ("int", None, None, True, [])),
+                                ("def", "D", None, ("oct", ("range", "MIN", ("ref", "max"), False)))]), "ref_min_max",
+            printer=G.Printer(kwstyle=1, min_max_explicit=True))
+        # an unresolved `max` is an unresolved reference (not silently no bound)
+        out.append(f"parse rt {hx('M DEFINITIONS AUTOMATIC TAGS ::= BEGIN' + chr(10) + 'A ::= INTEGER (0..max)' + chr(10) + 'END')} !err !err rejected:-")
         # hstring / bstring that do not fill whole octets
         for l in (("o", "ABC"), ("o", "1"), ("ob", "101"), ("ob", "1"), ("ob", "111100001")):
             one(simple_module("M", [("def", "A", None, seq([fld("o", ("oct", ("any",)), ("dflt", l))]))]), "partial_octets")
@@ -142,8 +168,17 @@ class ParseStream(runner.Stream):
         for _ in range(40 * scale):
             g = G.Gen(r, max_depth=2)
             m = g.module(with_refs=False, imports=False)
-            q = r.choice(["int_0_max", "int_min_i64max", "ext_first", "module_suffix"])
-            if q == "module_suffix":
+            q = r.choice(["int_0_max", "int_min_i64max", "ext_first", "module_suffix", "ref_min_max", "strdefault_first_sep", "strdefault_empty"])
+            if q == "ref_min_max":
+                nm = r.choice(["max", "min", "Max", "miN"])
+                lo, hi = r.choice([(("ref", nm), None), (None, ("ref", nm)), (-3, ("ref", nm)), (("ref", nm), 2 ** 40)])
+                m["items"].append(("vr", nm, INT, ("i", 7)))
+                m["items"].append(("def", "Qq", None, seq([fld("q", ("int", lo, hi, r.chance(1, 2), []), r.choice([None, "opt"])),
+                                                           fld("z", ("oct", ("range", ("ref", nm), 99, r.chance(1, 2))))])))
+            elif q in ("strdefault_first_sep", "strdefault_empty"):
+                toks = [] if q == "strdefault_empty" else [r.choice(sorted(G.SEPARATORS - {'"'}))] + [g.word() for _ in range(r.range(0, 2))]
+                m["items"].append(("def", "Qq", None, seq([fld("q", STR, ("dflt", ("s", toks))), fld("z", g.ty(1))])))
+            elif q == "module_suffix":
                 m["name"] += r.choice(["Module", "_Module"])
             elif q in ("int_0_max", "int_min_i64max"):
                 rg = (0, None) if q == "int_0_max" else (None, G.I64_MAX)
